@@ -621,7 +621,15 @@ pub fn check(property: &str, tier: &str, top: u64) -> i32 {
     }
     let mut workers_lost = 0u64;
     // worker crashes / hangs: rebuild the replay file from the seed and confirm
+    let mut crash_reports = 0usize;
+    let mut crashes_not_reexecuted = 0usize;
     for ((engine_name, profile), run, why) in &crashes {
+        // re-executing a hang costs its whole watchdog period: after three confirmed reports the
+        // remaining lost workers are counted, not replayed (their replay files are the same kind)
+        if crash_reports >= 3 {
+            crashes_not_reexecuted += 1;
+            continue;
+        }
         let engine = engines::engine_by_name(engine_name);
         let seed = tape::run_seed(top, &format!("{engine_name}:{profile}"), *run);
         let sc = engines::generate(&*engine, profile, seed, tier);
@@ -653,6 +661,7 @@ pub fn check(property: &str, tier: &str, top: u64) -> i32 {
                         println!("  {l}");
                     }
                     reported.push(path.clone());
+                    crash_reports += 1;
                 } else {
                     harness_errors.push(format!("run {run} of {profile}: {detail} (a real hang is decided by the C18 check)"));
                 }
@@ -666,6 +675,9 @@ pub fn check(property: &str, tier: &str, top: u64) -> i32 {
             }
             other => harness_errors.push(format!("run {run} of {profile}: {why}; not reproduced (got {other:?})")),
         }
+    }
+    if crashes_not_reexecuted > 0 {
+        println!("  ({crashes_not_reexecuted} further runs that lost their worker were not re-executed after three confirmed reports)");
     }
     for l in &known_lines {
         println!("{l}");
